@@ -6,7 +6,6 @@ package main
 
 import (
 	"fmt"
-	"go/types"
 	"runtime/debug"
 
 	"golang.org/x/tools/go/ssa"
@@ -212,222 +211,6 @@ func (th *Thread) yield(blocked func() bool) {
 		panic(&threadKilled{})
 	}
 	th.blocked = nil
-}
-
-// ---- channels ----
-
-func (th *Thread) chanOf(fr *Frame, v Value) *ChanObj {
-	cv, ok := v.(*ChanV)
-	if !ok {
-		panic(engineErr("channel op on %T at %s", v, th.posStr(fr)))
-	}
-	return cv.C
-}
-
-func (c *ChanObj) canRecv() bool {
-	return len(c.Buf) > 0 || c.Closed || c.pendingSend() != nil
-}
-
-func (c *ChanObj) pendingSend() *sendReq {
-	for _, s := range c.SendQ {
-		if !s.taken {
-			return s
-		}
-	}
-	return nil
-}
-
-func (c *ChanObj) canSend() bool {
-	if c.Closed {
-		return true // will panic
-	}
-	if c.Cap > 0 {
-		return len(c.Buf) < c.Cap
-	}
-	return c.RecvWaiting > 0
-}
-
-func (th *Thread) chanSend(fr *Frame, chv Value, val Value) {
-	c := th.chanOf(fr, chv)
-	if c == nil {
-		th.yield(func() bool { return false })
-		return
-	}
-	if c.Cap > 0 {
-		th.opKeys = []interface{}{c}
-		th.yield(func() bool { return c.Closed || len(c.Buf) < c.Cap })
-		if c.Closed {
-			th.goPanic("send on closed channel")
-		}
-		c.Buf = append(c.Buf, val)
-		return
-	}
-	// unbuffered: offer the value, wait until taken
-	th.opKeys = []interface{}{c}
-	th.yield(nil)
-	if c.Closed {
-		th.goPanic("send on closed channel")
-	}
-	req := &sendReq{val: val, th: th}
-	c.SendQ = append(c.SendQ, req)
-	th.opKeys = []interface{}{c}
-	th.yield(func() bool { return req.taken || c.Closed })
-	if !req.taken {
-		// closed while sending
-		th.goPanic("send on closed channel")
-	}
-}
-
-func (th *Thread) doRecv(c *ChanObj, elemZero Value) (Value, bool) {
-	if len(c.Buf) > 0 {
-		v := c.Buf[0]
-		c.Buf = c.Buf[1:]
-		return v, true
-	}
-	if s := c.pendingSend(); s != nil {
-		s.taken = true
-		// drop taken prefix
-		for len(c.SendQ) > 0 && c.SendQ[0].taken {
-			c.SendQ = c.SendQ[1:]
-		}
-		return s.val, true
-	}
-	return elemZero, false // closed
-}
-
-func (th *Thread) chanRecv(fr *Frame, chv Value, commaOk bool, resT types.Type) Value {
-	ctx := th.ctx()
-	c := th.chanOf(fr, chv)
-	if c == nil {
-		th.yield(func() bool { return false })
-		return nil
-	}
-	var et types.Type
-	if commaOk {
-		et = resT.(*types.Tuple).At(0).Type()
-	} else {
-		et = resT
-	}
-	c.RecvWaiting++
-	th.opKeys = []interface{}{c}
-	th.yield(func() bool { return c.canRecv() })
-	c.RecvWaiting--
-	v, ok := th.doRecv(c, ctx.zero(et))
-	if commaOk {
-		return TupleV{v, ctx.Bool(ok)}
-	}
-	return v
-}
-
-func (th *Thread) chanClose(fr *Frame, chv Value) {
-	c := th.chanOf(fr, chv)
-	if c == nil {
-		th.goPanic("close of nil channel")
-	}
-	th.opKeys = []interface{}{c}
-	th.yield(nil)
-	if c.Closed {
-		th.goPanic("close of closed channel")
-	}
-	c.Closed = true
-}
-
-func (th *Thread) selectOp(fr *Frame, i *ssa.Select) Value {
-	ctx := th.ctx()
-	p := th.p
-	type st struct {
-		c    *ChanObj
-		send bool
-		val  Value
-	}
-	states := make([]st, len(i.States))
-	for k, s := range i.States {
-		states[k] = st{c: th.chanOf(fr, th.get(fr, s.Chan)), send: s.Dir == types.SendOnly}
-		if states[k].send {
-			states[k].val = th.get(fr, s.Send)
-		}
-	}
-	ready := func() []int {
-		var r []int
-		for k, s := range states {
-			if s.c == nil {
-				continue
-			}
-			if s.send && s.c.canSend() || !s.send && s.c.canRecv() {
-				r = append(r, k)
-			}
-		}
-		return r
-	}
-	for _, s := range states {
-		if s.c != nil && !s.send {
-			s.c.RecvWaiting++
-		}
-	}
-	selKeys := make([]interface{}, 0, len(states))
-	for _, s := range states {
-		if s.c != nil {
-			selKeys = append(selKeys, s.c)
-		}
-	}
-	th.opKeys = selKeys
-	if i.Blocking {
-		th.yield(func() bool { return len(ready()) > 0 })
-	} else {
-		th.yield(nil)
-	}
-	for _, s := range states {
-		if s.c != nil && !s.send {
-			s.c.RecvWaiting--
-		}
-	}
-	rd := ready()
-	tup := i.Type().(*types.Tuple)
-	res := make(TupleV, tup.Len())
-	res[1] = ctx.False()
-	// zero for recv slots
-	ri := 2
-	for _, s := range i.States {
-		if s.Dir == types.RecvOnly {
-			res[ri] = ctx.zero(tup.At(ri).Type())
-			ri++
-		}
-	}
-	if len(rd) == 0 {
-		res[0] = ctx.Const(64, ^uint64(0)) // -1: default
-		return res
-	}
-	k := rd[0]
-	if len(rd) > 1 {
-		k = rd[p.ChooseFree(len(rd))]
-	}
-	res[0] = ctx.Const(64, uint64(k))
-	s := states[k]
-	if s.send {
-		if s.c.Closed {
-			th.goPanic("send on closed channel")
-		}
-		if s.c.Cap > 0 {
-			s.c.Buf = append(s.c.Buf, s.val)
-		} else {
-			s.c.SendQ = append(s.c.SendQ, &sendReq{val: s.val, th: th})
-		}
-		return res
-	}
-	// receive: find slot
-	ri = 2
-	for kk, ss := range i.States {
-		if ss.Dir == types.RecvOnly {
-			if kk == k {
-				v, ok := th.doRecv(s.c, res[ri])
-				res[ri] = v
-				res[1] = ctx.Bool(ok)
-				break
-			}
-			ri++
-		}
-	}
-	return res
 }
 
 // ---- sync side table ----
